@@ -145,7 +145,12 @@ class Flow(object):
                     return MergedDict(snames)
                 else:
                     outer_names = set(snames).difference(self.scope.locals)
-                    return {n: snames[n] for n in outer_names}
+                    names = {n: snames[n] for n in outer_names}
+                    if isinstance(self.scope, SourceScope):
+                        # module level code also sees names bound by functions
+                        # through a global statement
+                        return MergedDict(self.scope._global_names, names)
+                    return names
             else:
                 return {}
 
